@@ -12,7 +12,7 @@ import labrea.cache
 import labrea.logging
 import labrea.runtime as lrt
 
-from ..core import Property, Result
+from ..core import Property, Result, h64
 from ..rt import Log
 from ..world import global_state_guard
 
@@ -25,12 +25,22 @@ class SimRaise(Exception):
         self.k = k
 
 
+_NONCE = [""]  # identifies the run a handler was made in (request types are the same objects in every run of a process)
+
+
 def _handler(tag):
+    made_in = _NONCE[0]
+
     def h(request):
-        return tag
+        # a handler that outlived its run (process-global state of labrea that the harness does not know) shows as such
+        return tag if made_in == _NONCE[0] else f"stale-handler-of-an-earlier-run:{tag}"
 
     h.__name__ = f"h_{tag}"
     return h
+
+
+# the request types: made once per process, like a library's own request classes
+_TYPES = [type(f"T{t}", (lrt.Request,), {"__init__": lambda self, k=0: setattr(self, "k", k)}) for t in range(3)]
 
 
 def _raiser(request):
@@ -120,7 +130,7 @@ class C14(Property):
                 ops.append({"op": "builtin", "r": self._new_rt(state), "which": rng.choice(["cache", "logging"])})
             elif x < 0.66:
                 cand = [t for t in range(NTYPES) if t not in state["defaults"]]
-                if state["defaults"] and rng.random() < 0.3:
+                if state["defaults"] and rng.random() < 0.5:
                     # the default of a type is registered AGAIN with another handler (runtimes created before may keep
                     # serving the old one; what a derived runtime serves must be what its source serves)
                     state["rereg"] = state.get("rereg", 0) + 1
@@ -174,8 +184,9 @@ class C14(Property):
     def _execute(self, case, res, box, shared):
         log = box["log"] = Log()
         # fresh request types per run
-        types = [type(f"T{t}", (lrt.Request,), {"__init__": lambda self, k=0: setattr(self, "k", k)}) for t in range(NTYPES)]
-        shared.update({"defaults": {}, "default_tags": {}, "holds": {}, "objs": {}, "types": types, "log": log, "nthreads": 0})
+        types = _TYPES
+        _NONCE[0] = f"{h64(case):x}"
+        shared.update({"seq": 0, "last_rereg": {}, "defaults": {}, "default_tags": {}, "holds": {}, "objs": {}, "types": types, "log": log, "nthreads": 0})
         for t in case["pre_defaults"]:
             lrt.handle_by_default(types[t], _handler(f"d{t}"))
             shared["defaults"][t] = f"d{t}"
@@ -186,7 +197,7 @@ class C14(Property):
         self._thread_script(case["ops"], res, shared, st, base_holds={}, base_obj=base_obj, label="")
         box["nontrivial"] = st["maxdepth"] >= 2 or st["exc_exit"] or st["reentry"] or st["spawned"] > 0
 
-    def _thread_script(self, script_ops, res, shared, st, base_holds, base_obj, label):
+    def _thread_script(self, script_ops, res, shared, st, base_holds, base_obj, label, inherited=False):
         """Interpret one thread's ops against its own stack model (shared: runtime objects, defaults)."""
         types, objs, holds_of, defaults, log = shared["types"], shared["objs"], shared["holds"], shared["defaults"], shared["log"]
         stack = []
@@ -199,15 +210,27 @@ class C14(Property):
             if t in h:
                 return h[t]
             if len(shared["default_tags"].get(t, ())) > 1:
-                # re-registered default: the statement does not settle whether a runtime created in between serves the
-                # handler it saw at creation or the latest one -> any of them (the derive-time relation below is exact)
-                return set(shared["default_tags"][t])
+                # re-registered default: the statement does not settle whether a runtime OBJECT created in between serves
+                # the handler it saw at creation or the latest one -> any of them (the derive-time relation below is exact).
+                # Exact again where no such object exists: no block entered, and the thread's own runtime (made by its first
+                # request, gone again when it leaves its outermost block) is younger than the last re-registration.
+                own = stack or base_obj is not None or base_holds or inherited
+                if own or (tstate["rt_seq"] is not None and tstate["rt_seq"] < shared["last_rereg"].get(t, -1)):
+                    return set(shared["default_tags"][t])
             return defaults.get(t, "TypeError")
+
+        tstate = {"rt_seq": None}
+
+        def touch():
+            """The thread asks for its current runtime: one is made for it now if it has none."""
+            if not stack and tstate["rt_seq"] is None:
+                tstate["rt_seq"] = shared["seq"]
 
         def differs(got, want):
             return (got not in want) if isinstance(want, set) else (got != want)
 
         def observe(t, k=0):
+            touch()
             try:
                 return types[t](k).run()
             except TypeError:
@@ -288,7 +311,7 @@ class C14(Property):
                                 lrt.inherit(parent_thread)
                                 b = parent_holds
                                 res.bump("inherit_calls")
-                            self._thread_script(op["body"], res, shared, st, base_holds=b, base_obj=None, label=f"{where}>")
+                            self._thread_script(op["body"], res, shared, st, base_holds=b, base_obj=None, label=f"{where}>", inherited=bool(op.get("inherit")))
                         except SimRaise:
                             pass
                         except BaseException as e:  # noqa: BLE001
@@ -308,6 +331,7 @@ class C14(Property):
                     over = handlers_of(op["overrides"])
                     if op["src"] == "current":
                         src_holds = cur_holds()
+                        touch()
                         if op["form"] == "pair" and len(over) == 1:
                             ((ty, h),) = over.items()
                             objs[op["r"]] = lrt.handle(ty, h)
@@ -339,6 +363,7 @@ class C14(Property):
                             return
                 elif kind == "builtin":
                     src_holds = cur_holds()
+                    touch()
                     objs[op["r"]] = labrea.cache.disabled() if op["which"] == "cache" else labrea.logging.disabled()
                     holds_of[op["r"]] = dict(src_holds)
                 elif kind == "regdef":
@@ -346,6 +371,10 @@ class C14(Property):
                     lrt.handle_by_default(types[op["t"]], _handler(tag))
                     defaults[op["t"]] = tag
                     shared["default_tags"].setdefault(op["t"], set()).add(tag)
+                    shared["seq"] += 1
+                    if op.get("v"):
+                        shared["last_rereg"][op["t"]] = shared["seq"]
+                    shared["seq"] += 1
                     res.bump("defaults_registered_again" if op.get("v") else "defaults_registered_late")
                 elif kind == "run":
                     got = observe(op["t"])
